@@ -214,7 +214,7 @@ func logKeys(keys []string) {
 func (w *world) putSideChain(chain, router uint64) {
 	ns := w.view()
 	side_chain_manager.PutSideChain(ns, &side_chain_manager.SideChain{Address: valAddr[nKeys-1], ChainId: chain, Router: router,
-		Name: fmt.Sprintf("chain%d", chain), BlocksToWait: 1, CCMCAddress: []byte{1, 2, 3, 4}})
+		Name: fmt.Sprintf("chain%d", chain), BlocksToWait: 1, CCMCAddress: ethCCMC.Bytes()})
 	w.cache.Commit()
 	w.cache.Reset()
 }
